@@ -196,6 +196,7 @@ pub fn check(ctx: &mut Ctx, doc: &Tree, path: &JPath, text: &str) {
 pub fn run(ctx: &mut Ctx) {
     let n = ctx.budget(400_000, 8_000_000);
     let cfg = PathCfg { max_steps: 4, filters: true, big_indices: false };
+    let mon = super::routes::Monitor::new(super::routes::PATHS);
     for i in 0..n {
         if !ctx.next_case() {
             return;
@@ -203,11 +204,16 @@ pub fn run(ctx: &mut Ctx) {
         let mut rng = ctx.rng.fork();
         let doc = gen_doc(&mut rng, i);
         let pg = PathGen::new(&doc);
-        for _ in 0..3 {
+        for round in 0..3 {
             let path = if rng.chance(5, 6) { pg.guided_path(&mut rng, &cfg, &doc) } else { pg.path(&mut rng, &cfg) };
             let style = if rng.chance(1, 4) { refpath::RStyle { spacing: rng.bool(), kwcase: false, quoting: true, esc: true } } else { refpath::PLAIN };
             let text = refpath::render(&path, &style, &mut rng);
             check(ctx, &doc, &path, &text);
+            if round == 1 && i % 2 == 1 && doc.nodes() < 300 && !matches!(refpath::eval(&path, &doc), refpath::Outcome::Unspecified) {
+                let plain = refpath::render(&path, &refpath::PLAIN, &mut rng);
+                let args = super::routes::path_args(&doc, plain.clone(), plain, &mut rng);
+                mon.check(ctx, &doc, &doc, &args, &mut rng);
+            }
             ctx.sample(|| format!("{} on {}", text, doc.show()));
         }
     }
